@@ -73,26 +73,6 @@ example : ([0, 2, 1, 3] : List ℕ) ~ [0, 1, 2, 3] ∧ ([0, 2, 1, 3] : List ℕ)
     ∧ ([3, 2, 1, 0] : List ℕ) ~ [0, 1, 2, 3] ∧ ¬ ([3, 2, 1, 0] : List ℕ).idxOf 0 < ([3, 2, 1, 0] : List ℕ).idxOf 3 := by
   decide
 
-omit [LinearOrder K] in
-private theorem sumL_mul_right {α : Type*} (l : List α) (f : α → K) (k : K) :
-    sumL l (fun a => f a * k) = sumL l f * k := by
-  induction l with
-  | nil => simp
-  | cons a l ih => simp only [sumL_cons, ih]; ring
-
-omit [LinearOrder K] in
-private theorem sumL_mul_left {α : Type*} (l : List α) (f : α → K) (k : K) :
-    sumL l (fun a => k * f a) = k * sumL l f := by
-  induction l with
-  | nil => simp
-  | cons a l ih => simp only [sumL_cons, ih]; ring
-
-omit [LinearOrder K] in
-private theorem sumL_const (n : ℕ) (k : K) : sumL (range n) (fun _ => k) = n * k := by
-  induction n with
-  | zero => simp
-  | succ n ih => rw [sumL_range_succ, ih]; push_cast; ring
-
 /-- every process' local diagnostic is the quadrature, with the global weights, of its own block -/
 theorem localDiag_eq_block_quadrature (kind : Kind) (ord ps c : List ℕ) (e : Grids K) (G : List ℕ → K × K)
     (hord : ord ~ List.range ord.length) (hnd : ord.length = 4 ∨ ord.length = 3) :
@@ -151,13 +131,6 @@ theorem sum_over_ranks_replicated (kind : Kind) (ord ps : List ℕ) (e : Grids K
 example : coordsBox [0, 2, 1, 3] [2, 3] = [[0,0,0,0],[0,1,0,0],[0,2,0,0],[1,0,0,0],[1,1,0,0],[1,2,0,0]] := by decide
 
 /-! ### f ≡ 1 : the analytic volume factor -/
-
-private theorem get4 (ir iq iz iv : ℕ) :
-    Pt.get [(0, ir), (1, iq), (2, iz), (3, iv)] 0 = ir ∧ Pt.get [(0, ir), (1, iq), (2, iz), (3, iv)] 3 = iv := by
-  simp [Pt.get]
-
-private theorem get3 (ir iq iz : ℕ) : Pt.get [(0, ir), (1, iq), (2, iz)] 0 = ir := by
-  simp [Pt.get]
 
 omit [LinearOrder K] in
 /-- Σ_i drMult[i]·r[i] = (r_max² − r_min²)/2 : the trapezoidal rule is exact for the Jacobian `r`, on any grid -/
@@ -246,5 +219,133 @@ example : serialQuad (K := ℚ) Kind.l2 4
       nr := 3, nq := 3, nz := 3, nv := 2 } (fun _ => (1, 0)) = (4 ^ 2 - 1 ^ 2) / 2 * (3 - (-1)) * (3 * 1) * (3 * 2) := by
   rw [trapezoid_volume_of_one Kind.l2 (by decide) _ 1 0 rfl rfl]
   norm_num
+
+/-! ### minima and maxima -/
+
+section minmax
+variable {K : Type} [LinearOrder K]
+
+/-- `Grid.getMin(drawingRank, axis, fixValue)`: the `MIN`-reduction over all processes (in any order) of what each
+hands in — `+∞` for an empty block, the block minimum for the whole grid, the minimum of the slice when the process
+covers every fixed index, `+∞` otherwise — is the minimum of the selected slice of the global field -/
+theorem min_of_blocks (nd : ℕ) (ext ord ps : List ℕ) (G : List ℕ → K) (sel : List (ℕ × ℕ))
+    (hord : ord ~ List.range nd) (hps : ∀ p ∈ ps, 0 < p)
+    (hsel : (sel.map (·.1)).Nodup) (hin : ∀ s ∈ sel, s.1 < nd ∧ s.2 < ext.getD s.1 0)
+    (ranks : List (List ℕ)) (hr : ranks ~ coordsBox ord ps) :
+    reduceAll min ⊤ (ranks.map (fun c => minContribution nd (localAxes ext ord ps c) sel G))
+      = blockFold min ⊤ (fun (x : K) => (x : WithTop K)) nd (applySel (globalAxes ext (List.range nd)) sel) G := by
+  simp only [minContribution_eq]
+  rw [reduceAll_min_eq, sumL_perm hr, sum_contribM nd ext ord ps sel _ hord hps hsel hin, blockFold_min_eq]
+
+/-- the same for `Grid.getMax` with `-∞` as the neutral element -/
+theorem max_of_blocks (nd : ℕ) (ext ord ps : List ℕ) (G : List ℕ → K) (sel : List (ℕ × ℕ))
+    (hord : ord ~ List.range nd) (hps : ∀ p ∈ ps, 0 < p)
+    (hsel : (sel.map (·.1)).Nodup) (hin : ∀ s ∈ sel, s.1 < nd ∧ s.2 < ext.getD s.1 0)
+    (ranks : List (List ℕ)) (hr : ranks ~ coordsBox ord ps) :
+    reduceAll max ⊥ (ranks.map (fun c => maxContribution nd (localAxes ext ord ps c) sel G))
+      = blockFold max ⊥ (fun (x : K) => (x : WithBot K)) nd (applySel (globalAxes ext (List.range nd)) sel) G := by
+  simp only [maxContribution_eq]
+  rw [reduceAll_max_eq, sumL_perm hr, sum_contribM nd ext ord ps sel _ hord hps hsel hin, blockFold_max_eq]
+
+/-- **reported minima and maxima equal those of the global field** (all four branches of `getMin`/`getMax`) -/
+theorem min_max_of_blocks (nd : ℕ) (ext ord ps : List ℕ) (G : List ℕ → K) (sel : List (ℕ × ℕ))
+    (hord : ord ~ List.range nd) (hps : ∀ p ∈ ps, 0 < p)
+    (hsel : (sel.map (·.1)).Nodup) (hin : ∀ s ∈ sel, s.1 < nd ∧ s.2 < ext.getD s.1 0)
+    (ranks : List (List ℕ)) (hr : ranks ~ coordsBox ord ps) :
+    reduceAll min ⊤ (ranks.map (fun c => minContribution nd (localAxes ext ord ps c) sel G))
+        = blockFold min ⊤ (fun (x : K) => (x : WithTop K)) nd (applySel (globalAxes ext (List.range nd)) sel) G
+    ∧ reduceAll max ⊥ (ranks.map (fun c => maxContribution nd (localAxes ext ord ps c) sel G))
+        = blockFold max ⊥ (fun (x : K) => (x : WithBot K)) nd (applySel (globalAxes ext (List.range nd)) sel) G :=
+  ⟨min_of_blocks nd ext ord ps G sel hord hps hsel hin ranks hr,
+   max_of_blocks nd ext ord ps G sel hord hps hsel hin ranks hr⟩
+
+/-- the collector's path (`f.getMin()` without drawing rank, then `Reduce(MIN)` / `Reduce(MAX)`): when no block is
+empty every process has a local extremum and their reduction is the global extremum -/
+theorem extrema_of_local_extrema (nd : ℕ) (ext ord ps : List ℕ) (G : List ℕ → K)
+    (hord : ord ~ List.range nd) (hps : ∀ p ∈ ps, 0 < p)
+    (hne : ∀ c ∈ coordsBox ord ps, blockSize (localAxes ext ord ps c) ≠ 0)
+    (ranks : List (List ℕ)) (hr : ranks ~ coordsBox ord ps) :
+    (∀ c ∈ ranks, localMin nd (localAxes ext ord ps c) G = some (minContribution nd (localAxes ext ord ps c) [] G)
+        ∧ localMax nd (localAxes ext ord ps c) G = some (maxContribution nd (localAxes ext ord ps c) [] G))
+    ∧ reduceAll min ⊤ (ranks.map (fun c => minContribution nd (localAxes ext ord ps c) [] G))
+        = blockFold min ⊤ (fun (x : K) => (x : WithTop K)) nd (globalAxes ext (List.range nd)) G
+    ∧ reduceAll max ⊥ (ranks.map (fun c => maxContribution nd (localAxes ext ord ps c) [] G))
+        = blockFold max ⊥ (fun (x : K) => (x : WithBot K)) nd (globalAxes ext (List.range nd)) G := by
+  refine ⟨fun c hc => ?_, ?_, ?_⟩
+  · have h := hne c (hr.mem_iff.1 hc)
+    simp [localMin, localMax, minContribution, maxContribution, contribution, h]
+  · exact min_of_blocks nd ext ord ps G [] hord hps (by simp) (by simp) ranks hr
+  · exact max_of_blocks nd ext ord ps G [] hord hps (by simp) (by simp) ranks hr
+
+/-- what `blockFold min` returns *is* the minimum: a lower bound of all values of the block, attained when the
+block is not empty (`⊤` only for an empty block); dually for `max` -/
+theorem blockFold_is_extremum (nd : ℕ) (axes : List Axis) (G : List ℕ → K) :
+    (∀ a ∈ boxA axes, blockFold min ⊤ (fun (x : K) => (x : WithTop K)) nd axes G ≤ (G (a.toIdx nd) : WithTop K))
+    ∧ (boxA axes ≠ [] → ∃ a ∈ boxA axes,
+        blockFold min ⊤ (fun (x : K) => (x : WithTop K)) nd axes G = (G (a.toIdx nd) : WithTop K))
+    ∧ (∀ a ∈ boxA axes, (G (a.toIdx nd) : WithBot K) ≤ blockFold max ⊥ (fun (x : K) => (x : WithBot K)) nd axes G)
+    ∧ (boxA axes ≠ [] → ∃ a ∈ boxA axes,
+        blockFold max ⊥ (fun (x : K) => (x : WithBot K)) nd axes G = (G (a.toIdx nd) : WithBot K)) := by
+  refine ⟨fun a ha => foldr_min_le (List.mem_map_of_mem ha), fun h => ?_,
+    fun a ha => le_foldr_max (List.mem_map_of_mem ha), fun h => ?_⟩
+  · have := foldr_min_mem (l := (boxA axes).map (fun a => (G (a.toIdx nd) : WithTop K))) (by simpa using h)
+    obtain ⟨a, ha, e⟩ := List.mem_map.1 this
+    exact ⟨a, ha, e.symm⟩
+  · have := foldr_max_mem (l := (boxA axes).map (fun a => (G (a.toIdx nd) : WithBot K))) (by simpa using h)
+    obtain ⟨a, ha, e⟩ := List.mem_map.1 this
+    exact ⟨a, ha, e.symm⟩
+
+/-- non-vacuity: 4 points on 2 processes, slice at global index 3 of dimension 0: only the second process owns it -/
+example : (coordsBox [0] [2]).map (fun c => minContribution (K := ℤ) 1 (localAxes [4] [0] [2] c) [(0, 3)]
+    (fun i => [5, -2, 7, 1].getD (i.getD 0 0) 0)) = [⊤, ((1 : ℤ) : WithTop ℤ)] := by decide
+
+end minmax
+
+/-! ### the collector's time slot -/
+
+/-- **collected diagnostics go to the slot of the step they belong to**: with integer `t = k·dt`, `dt > 0`,
+the slot is `k mod saveStep`, inside the table -/
+theorem collect_slot (k dt saveStep : Int) (hdt : 0 < dt) (hs : 0 < saveStep) :
+    collectSlot (.int (k * dt)) (.int dt) saveStep = some (k % saveStep)
+    ∧ 0 ≤ k % saveStep ∧ k % saveStep < saveStep := by
+  refine ⟨?_, Int.emod_nonneg _ (ne_of_gt hs), Int.emod_lt_of_pos _ hs⟩
+  unfold collectSlot
+  have h0 : dt ≠ 0 := ne_of_gt hdt
+  simp only [h0, if_false]
+  rw [Int.fdiv_eq_ediv_of_nonneg _ (le_of_lt hdt), Int.fmod_eq_emod_of_nonneg _ (le_of_lt hs),
+    Int.mul_ediv_cancel _ h0]
+
+/-- for any integer time (not only multiples of `dt`): slot = ⌊t/dt⌋ mod saveStep -/
+theorem collect_slot_floor (t dt saveStep : Int) (hdt : 0 < dt) (hs : 0 < saveStep) :
+    collectSlot (.int t) (.int dt) saveStep = some ((t / dt) % saveStep) := by
+  unfold collectSlot
+  have h0 : dt ≠ 0 := ne_of_gt hdt
+  simp only [h0, if_false]
+  rw [Int.fdiv_eq_ediv_of_nonneg _ (le_of_lt hdt), Int.fmod_eq_emod_of_nonneg _ (le_of_lt hs)]
+
+/-- two steps less than `saveStep` apart never share a slot: nothing is overwritten between two outputs -/
+theorem collect_slot_injective_in_window (k k' saveStep : Int) (hs : 0 < saveStep)
+    (h1 : k ≤ k') (h2 : k' - k < saveStep) (h : k % saveStep = k' % saveStep) : k = k' := by
+  have := Int.emod_emod_of_dvd k (dvd_refl saveStep)
+  have hd : saveStep ∣ k' - k := by
+    exact Int.dvd_of_emod_eq_zero (by rw [Int.sub_emod, h]; simp)
+  obtain ⟨q, hq⟩ := hd
+  have : q = 0 := by
+    by_contra hne
+    rcases lt_or_gt_of_ne hne with hlt | hgt
+    · have : saveStep * q ≤ saveStep * (-1) := Int.mul_le_mul_of_nonneg_left (by omega) (le_of_lt hs)
+      omega
+    · have : saveStep * 1 ≤ saveStep * q := Int.mul_le_mul_of_nonneg_left (by omega) (le_of_lt hs)
+      omega
+  subst this
+  omega
+
+/-- a non-integer time or time step is *refused* (numpy raises `IndexError` for the float index), never mis-slotted -/
+theorem collect_slot_refuses_float (t dt : PyNum) (saveStep : Int) :
+    collectSlot t dt saveStep = none ↔ (∃ x, t = .float x) ∨ (∃ x, dt = .float x) ∨ dt = .int 0 := by
+  unfold collectSlot
+  cases t <;> cases dt <;> simp
+
+example : collectSlot (.int 14) (.int 2) 5 = some 2 ∧ collectSlot (.int 14) (.float 2) 5 = none := by decide
 
 end PygyroVerif.C17
